@@ -3,11 +3,12 @@ package verifh
 import (
 	"encoding/json"
 	"flag"
+	"fmt"
+	otp "github.com/ja7ad/otp"
 	"os"
 	"path/filepath"
-	"sort"
-	"fmt"
 	"runtime/debug"
+	"sort"
 	"strconv"
 	"strings"
 	"sync"
@@ -226,4 +227,33 @@ func retainBytes(b []byte, what string) error {
 	retainedB.got[k], retainedB.clone[k], retainedB.what[k] = b, append([]byte(nil), b...), what
 	retainedB.n++
 	return nil
+}
+
+// viaDefault routes an explicit parameter set through the exported default pointers, as an application does that
+// customises the defaults or hands them in explicitly: what the struct holds decides, not which pointer it is.
+//
+//	1: written INTO *otp.DefaultHOTPParam, that pointer passed    2: otp.DefaultHOTPParam replaced by the pointer
+//	3: written INTO *otp.DefaultTOTPParam, that pointer passed    4: otp.DefaultTOTPParam replaced by the pointer
+//
+// The returned function restores both exported defaults.
+func viaDefault(via int, param *otp.Param) (*otp.Param, func()) {
+	if via == 0 || param == nil {
+		return param, func() {}
+	}
+	hp, tp := otp.DefaultHOTPParam, otp.DefaultTOTPParam
+	hv, tv := *hp, *tp
+	restore := func() { otp.DefaultHOTPParam, otp.DefaultTOTPParam = hp, tp; *hp, *tp = hv, tv }
+	switch via {
+	case 1:
+		*otp.DefaultHOTPParam = *param
+		return otp.DefaultHOTPParam, restore
+	case 2:
+		otp.DefaultHOTPParam = param
+	case 3:
+		*otp.DefaultTOTPParam = *param
+		return otp.DefaultTOTPParam, restore
+	case 4:
+		otp.DefaultTOTPParam = param
+	}
+	return param, restore
 }
